@@ -14,6 +14,8 @@ ANGLES = {
  "twosite": "TWO COOPERATING SITES: two edits in different functions/files (or one edit that interacts with an existing, untouched site) that each look reasonable on their own, and only together break the property",
  "shape": "an UNUSUAL BUT VALID DEFINITION SHAPE (a combination of features, names, nesting, multiple files/services/packages) that ordinary examples do not contain",
  "fault": "a FAULT or an unusual peer: a malformed/edge-case input from the other side, an error path, an option or plugin parameter that is rarely used, a retry or a second use of the same object",
+ "interplay": "the INTERPLAY of two features that each work on their own (two annotations on neighbouring fields or on a message and the message nested in it, a header plus a query parameter, a path variable plus a body field, two services or two RPCs sharing a message, a plugin parameter plus an annotation)",
+ "invocation": "the way the plugin is INVOKED or the run-time ENVIRONMENT of the emitted code (plugin parameters such as paths=source_relative, module=, M mappings, generate_mock, format; several files / packages / Go packages per invocation and their order; files without package or go_package; locale, time zone, GOMAXPROCS, HTTP/1.1 keep-alive or connection reuse of the emitted client and server)",
  "free": "anything specific of your choosing (a particular interleaving, multi-step sequence, unusual input, or two cooperating sites)",
 }
 
@@ -28,7 +30,7 @@ avoid_txt = ("\nEarlier changes for this property already did the following; cho
 
 print(f"""You are helping to evaluate a verification effort for the open-source project SebastienMelki/sebuf — a set of protoc plugins (cmd/protoc-gen-go-http, -go-client, -ts-client, -ts-server, -openapiv3; implementation under internal/) that generate Go/TypeScript HTTP servers, clients, custom JSON marshalers and OpenAPI v3.1 documents from annotated protobuf services.
 
-Your private git worktree of the project is {wt} (detached HEAD). Work ONLY inside it. Never read or write /repo or /verif, never commit, never push, never create branches.
+Your private git worktree of the project is {wt} (detached HEAD). Work ONLY inside it. Never read, list or write /repo or /verif or anything under /root/.claude (not even `ls`), never commit, never push, never create branches, never run `git stash`.
 
 ## The property
 
